@@ -31,21 +31,21 @@ namespace sim { namespace fs { extern std::string g_last_assert; } }
 namespace {
 
 enum FaultId { F_crash, F_crash_torn_write, F_short_write, F_eintr_write, F_enospc, F_eio_write, F_rename_fail, F_mkdir_fail,
-               F_clean_restart, F_clock_jump };
+               F_clean_restart, F_clock_jump, F_open_fail_once };
 const char* const kFaultNames[] = { "crash", "crash_with_torn_write", "short_write", "eintr_write", "enospc", "eio_write",
-               "rename_fail", "mkdir_fail", "clean_restart", "clock_jump" };
+               "rename_fail", "mkdir_fail", "clean_restart", "clock_jump", "open_fails_once" };
 enum ProbeId { P_rollover, P_rollover_all_generations_present, P_restart_on_empty, P_restart_on_partly_filled,
                P_restart_on_full, P_crash_in_write_call, P_crash_between_close_and_first_rename, P_crash_between_renames,
                P_crash_after_last_rename_before_open, P_crash_at_open, P_crash_outside_roll, P_torn_tail_glued,
                P_inflight_complete_after_crash, P_inflight_absent_after_crash, P_directory_created_by_policy,
-               P_max_gen_one, P_oversized_message, P_recovery_rolled_twice, P_degraded_window, P_exception_under_fault, P_files_handler_wrapper };
+               P_max_gen_one, P_oversized_message, P_recovery_rolled_twice, P_degraded_window, P_exception_under_fault, P_files_handler_wrapper, P_long_entry };
 const char* const kProbeNames[] = { "rollover", "rollover_with_all_generations_present", "restart_on_empty_generation0",
                "restart_on_partly_filled_generation0", "restart_on_full_generation0", "crash_in_write_call",
                "crash_between_close_and_first_rename", "crash_between_two_renames", "crash_after_last_rename_before_open",
                "crash_at_open", "crash_outside_rollover", "torn_tail_glued_to_next_line", "inflight_message_complete_after_crash",
                "inflight_message_absent_after_crash", "directory_created_by_policy", "max_gen_one", "oversized_single_message",
                "recovery_rolled_twice", "degraded_window_after_io_error", "exception_under_fault",
-               "through_files_handler_wrapper" };
+               "through_files_handler_wrapper", "entry_longer_than_1000_bytes" };
 
 /// formatter for the files::Handler wrapper: the message text as it is (the
 /// default formatter adds fields and a line end of its own)
@@ -602,6 +602,7 @@ struct Run
          else if (f.kind == "eio_write") st.fault( F_eio_write);
          else if (f.kind == "rename_fail") st.fault( F_rename_fail);
          else if (f.kind == "mkdir_fail") st.fault( F_mkdir_fail);
+         else if (f.kind == "open_eacces") st.fault( F_open_fail_once);
       }
    }
 
@@ -820,7 +821,8 @@ struct Run
          }
          msgs.push_back( m);
          Msg&  cur = msgs.back();
-         log( when + " '" + cur.text + "'");
+         if (cur.text.size() > 1000) st.probe( P_long_entry);
+         log( when + " '" + (cur.text.size() > 60 ? cur.text.substr( 0, 60) + "...(" + std::to_string( cur.text.size()) + ")" : cur.text) + "'");
          if (!isOpen())
          {
             // the very first open failed under an injected fault: nothing to write to
@@ -858,6 +860,9 @@ struct Run
             if (!degraded) st.probe( P_degraded_window);
             degraded = true;
             cur.may_be_missing = true;
+            // a failed write may leave a part of the message behind (the text and
+            // its line end do not always travel in one call)
+            cur.crashed = true;
             // a generation that could not be moved away is overwritten by the
             // next one: the property does not speak about failing renames
             if (renameFaultFired( rep)) renameFailed();
@@ -968,6 +973,7 @@ public:
       const unsigned  mode = static_cast< unsigned>( fl.below( 10));   // 0-2 none, 3-5 crash only, 6-7 benign, 8-9 all
       const unsigned  fault_pct = (mode <= 2) ? 0 : static_cast< unsigned>( fl.range( 3, 15));
       const bool      strict_len = cfg.chance( 3, 4);   // messages always fit the byte limit
+      const bool      long_entries = cfg.chance( 1, 8);
       const size_t    max_ops = thorough ? 40 : 24;
       const size_t    nops = 1 + static_cast< size_t>( wl.below( wl.chance( 1, 3) ? 6 : max_ops));
       Json  ops = Json::array();
@@ -989,6 +995,8 @@ public:
          {
             op[ "op"] = "write";
             long long  len = wl.range( 1, 24);
+            // entries far longer than any line buffer a reader might use
+            if (counted && long_entries && wl.chance( 1, 4)) len = wl.range( 1000, 2600);
             if (!counted && strict_len) len = std::min< long long>( len, limit - 2);
             op[ "len"] = len;
          }
@@ -999,10 +1007,15 @@ public:
             if (mode >= 8)
             {
                static const char* const  kinds[] = { "crash", "crash", "short_write", "eintr_write", "enospc", "eio_write",
-                                                     "rename_fail", "mkdir_fail" };
-               kind = kinds[ fl.below( 8)];
+                                                     "rename_fail", "mkdir_fail", "open_eacces" };
+               kind = kinds[ fl.below( 9)];
             } else if (mode >= 6)
-               kind = fl.chance( 1, 2) ? "short_write" : "eintr_write";
+            {
+               // benign: must not change anything. A failing open is retried by
+               // the library after it tried to create the directory.
+               static const char* const  benign[] = { "short_write", "eintr_write", "open_eacces" };
+               kind = benign[ fl.below( 3)];
+            }
             f[ "kind"] = kind;
             if (std::string( kind) == "crash")
             {
@@ -1013,8 +1026,10 @@ public:
                f[ "bytes"] = static_cast< long long>( fl.below( 30));
             } else
             {
-               f[ "at"] = (std::string( kind) == "rename_fail") ? "rename" : (std::string( kind) == "mkdir_fail" ? "mkdir" : "write");
-               f[ "n"] = static_cast< long long>( fl.below( 2));
+               f[ "at"] = (std::string( kind) == "rename_fail") ? "rename" : (std::string( kind) == "mkdir_fail" ? "mkdir"
+                          : (std::string( kind) == "open_eacces" ? "open" : "write"));
+               // (a failing open: only the first attempt, the retry must get through)
+               f[ "n"] = static_cast< long long>( std::string( kind) == "open_eacces" ? 0 : fl.below( 2));
                f[ "bytes"] = static_cast< long long>( fl.below( 30));
             }
             op[ "fault"] = f;
